@@ -2204,6 +2204,165 @@ def interp(x, xp, fp, left=None, right=None, period=None):
     return ndarray.from_fn(lambda *i: g(*[zint(k) for k in i]), x._shape, "f", "real")
 
 
+# ---- function spellings of array methods and operators (a refactoring between the two spellings is not a change of behaviour)
+def reshape(a, shape=None, order="C", **kw):
+    if shape is None:
+        shape = kw.pop("newshape")
+    return asarray(a).reshape(shape, order=order)
+
+
+def transpose(a, axes=None):
+    a = asarray(a)
+    return a.transpose() if axes is None else a.transpose(axes)
+
+
+def swapaxes(a, axis1, axis2):
+    return asarray(a).swapaxes(axis1, axis2)
+
+
+def squeeze(a, axis=None):
+    return asarray(a).squeeze(axis)
+
+
+def ravel(a, order="C"):
+    return asarray(a).ravel(order)
+
+
+def copy(a, order="K"):
+    return asarray(a).copy()
+
+
+def expand_dims(a, axis):
+    a = asarray(a)
+    ax = _norm_axis(conc_req(axis), a.ndim + 1)
+    return a[tuple([slice(None)] * ax + [None] + [slice(None)] * (a.ndim - ax))]
+
+
+def moveaxis(a, source, destination):
+    a = asarray(a)
+    src, dst = _norm_axis(conc_req(source), a.ndim), _norm_axis(conc_req(destination), a.ndim)
+    order = [k for k in range(a.ndim) if k != src]
+    order.insert(dst, src)
+    return a.transpose(order)
+
+
+def array_equal(a, b, equal_nan=False):
+    if equal_nan:
+        raise OutOfSubset("np.array_equal(equal_nan=True)")
+    a, b = asarray(a), asarray(b)
+    if a.ndim != b.ndim:
+        return False
+    for x, y in zip(a._shape, b._shape):
+        if not _same_extent(x, y):
+            if not ctx().decide(zint(x) == zint(y), "array_equal: extents equal"):
+                return False
+    return all(a == b)
+
+
+def logical_and(a, b):
+    return asarray(a) & asarray(b)
+
+
+def logical_or(a, b):
+    return asarray(a) | asarray(b)
+
+
+asanyarray = asarray
+
+
+def atleast_1d(a):
+    a = asarray(a)
+    return a if a.ndim >= 1 else a[None]
+
+
+def full_like(a, v, dtype=None):
+    a = asarray(a)
+    return full(a.shape, v, dtype)
+
+
+def isfinite(a):
+    # (floats are reals plus NaN in this model: no infinities)
+    return ~isnan(a) if isinstance(a, ndarray) else (not isnan(a))
+
+
+def count_nonzero(a, axis=None):
+    a = asarray(a)
+    if a.elem != "bool":
+        raise OutOfSubset("np.count_nonzero on non-boolean data")
+    return a.sum(axis=axis)
+
+
+def stack(arrays, axis=0):
+    r = _from_list(builtins.list(arrays))
+    return r if conc_req(axis) == 0 else moveaxis(r, 0, axis)
+
+
+def isclose(a, b, rtol=1e-05, atol=1e-08, equal_nan=False):
+    """|a - b| <= atol + rtol * |b| cell by cell (NaN is close to nothing) -- linear, rtol and atol being numerals"""
+    a, b = _as_operand(a), _as_operand(b)
+    if not isinstance(a, ndarray):
+        a = _scalar_array(a)
+    if not isinstance(b, ndarray):
+        b = _scalar_array(b)
+    if a.elem not in ("real", "int") or b.elem not in ("real", "int") or equal_nan:
+        raise OutOfSubset("np.isclose on non-numeric data / equal_nan")
+    shape, ia, ib = _bshape(a._shape, b._shape)
+    fa, fb = a.snapshot(), b.snapshot()
+    rt, at = z3.RealVal(repr(float(rtol))), z3.RealVal(repr(float(atol)))
+    def fn(*idx):
+        x, y = sym._toreal(fa(*ia(idx))), sym._toreal(fb(*ib(idx)))
+        d, m = z3.If(x >= y, x - y, y - x), z3.If(y >= 0, y, -y)
+        return z3.And(z3.Not(_isnan_f(x)), z3.Not(_isnan_f(y)), d <= at + rt * m)
+    if not shape:
+        return mkbool(fn())
+    return ndarray.from_fn(fn, shape, "b", "bool")
+
+
+def allclose(a, b, rtol=1e-05, atol=1e-08, equal_nan=False):
+    return all(isclose(a, b, rtol=rtol, atol=atol, equal_nan=equal_nan))
+
+
+class errstate(object):
+    def __init__(self, **kw):
+        pass
+
+    def __enter__(self):
+        return self
+
+    def __exit__(self, *a):
+        return False
+
+
+def _make_ufunc1(name):
+    F = {}
+    def f(a, out=None, **kw):
+        if out is not None or kw:
+            raise OutOfSubset("np.%s(out= ...)" % name)
+        if name not in F:
+            F[name] = z3.Function("np." + name, z3.RealSort(), z3.RealSort())
+        G = F[name]
+        def term(t):
+            t = sym._toreal(to_z3(t))
+            return G(z3.If(_isnan_f(t), NAN, t))
+        ctx().lib("ufunc/" + name)
+        if isinstance(a, ndarray):
+            if a.elem not in ("real", "int"):
+                raise TypeError("ufunc '%s' not supported for the input types" % name)
+            fa = a.snapshot()
+            return ndarray.from_fn(lambda *i: term(fa(*i)), a._shape, "f", "real")
+        return _wrap_elem(term(a), "real")
+    f.__name__ = name
+    return f
+
+
+sqrt = _make_ufunc1("sqrt")
+exp = _make_ufunc1("exp")
+log = _make_ufunc1("log")
+floor = _make_ufunc1("floor")
+ceil = _make_ufunc1("ceil")
+sign = _make_ufunc1("sign")
+
+
 def __getattr__(name):
     if name == "in1d" and _HAS_IN1D:
         return isin
